@@ -125,15 +125,14 @@ def C19_3_4(ctx, facts):
         ctx.check(crate_layers and crate_layers[-1] == "TimeoutLayer", "build_service|timeout-outermost", "the timeout layer is the outermost of the client's own layers (%s)" % crate_layers,
                   "timeout layer is not outermost: %s" % crate_layers, c.where())
     ctx.floor("build_service|service-call", len(svc), 1, "ServiceBuilder::service call")
-    tl = [c for c in f.calls() if c.is_("service::timeout::TimeoutLayer::new")] + \
-         [c for k in [k for (_, _, _, k) in f.closures_created()] if k in facts.fns for c in facts.fns[k].calls() if c.is_("service::timeout::TimeoutLayer::new")]
+    tl = facts.calls_in_family(f, "service::timeout::TimeoutLayer::new")
     ctx.floor("build_service|TimeoutLayer::new", len(tl), 1, "TimeoutLayer::new")
     for c in tl:
         g = c.fn
         ck = None
         a = c.args[0]
         k = a.get("k") or {}
-        ck = k.get("closure") or k.get("fn")
+        ck = k.get("closure") or (k.get("fn") if k.get("fn") in facts.fns else k.get("fna"))
         if ck is None:
             for r in g.roots(a, through_calls=False):
                 if r.kind == "closure":
